@@ -517,7 +517,8 @@ def cases(tier, rng, escalate):
 
 def recv_cases(tier, rng, escalate):
     thorough = tier == "thorough" or escalate
-    reps = 14 if thorough else 3
+    deep = tier == "thorough"
+    reps = 40 if deep else 14 if thorough else 3
     for cfgd in configs(thorough):
         for kind in cfgd["kinds"]:
             for _ in range(reps):
@@ -538,7 +539,7 @@ def recv_cases(tier, rng, escalate):
                         continue    # overruns restart mid-frame: the decode table would have to cover every position
                     dec = sc.decode_table(base_kind(kind), cfg, cfgd["impl"], stream, "frames" if valid else "all")
                 chunkings = []
-                if len(stream) <= (10 if thorough else 8):
+                if len(stream) <= (12 if deep else 10 if thorough else 8):
                     chunkings = list(sc.all_chunkings(stream))
                     tag = "all-chunkings"
                 else:
@@ -547,7 +548,10 @@ def recv_cases(tier, rng, escalate):
                     chunkings.append([stream[i:i + 1] for i in range(len(stream))])
                     for c in range(1, len(stream)):
                         chunkings.append(sc.cuts_to_chunks(stream, [c]))
-                    for _k in range(8 if thorough else 3):
+                    if deep and len(stream) <= 24:
+                        for c1, c2 in itertools.combinations(range(1, len(stream)), 2):
+                            chunkings.append(sc.cuts_to_chunks(stream, [c1, c2]))
+                    for _k in range(20 if deep else 8 if thorough else 3):
                         k = rng.randrange(2, 5)
                         chunkings.append(sc.cuts_to_chunks(stream, [rng.randrange(1, len(stream)) for _ in range(k)]))
                 for chunks in chunkings:
